@@ -550,9 +550,11 @@ func (st *SortTable) prelude(body string) string {
 (assert (forall ((t Int) (x Int)) (! (= (iface.typ (iface.val t x)) t) :pattern ((iface.val t x)))))
 (assert (forall ((v Iface)) (! (= (iface.typ v) (ite ((_ is iface.ref) v) (ifr.t v) (ite ((_ is iface.int) v) (ifi.t v) (ite ((_ is iface.str) v) (ifs.t v) (ite ((_ is iface.bool) v) (ifb.t v) (ite ((_ is iface.slice) v) (ifl.t v) (ite ((_ is iface.val) v) (ifv.t v) 0))))))) :pattern ((iface.typ v)))))
 (declare-fun implements (Int Int) Bool)
+(declare-fun sl.get.byte ((Array IDX BYTE) IDX IDX) BYTE)
+(assert (forall ((a (Array IDX BYTE)) (o IDX) (i IDX)) (! (= (sl.get.byte a o i) (select a (idx.add o i))) :pattern ((sl.get.byte a o i)))))
 (declare-fun gs.of (Ref (Array IDX BYTE) IDX IDX) Str)
 (assert (forall ((r Ref) (a (Array IDX BYTE)) (o IDX) (n IDX)) (! (=> (idx.le idx.zero n) (= (gs.len (gs.of r a o n)) n)) :pattern ((gs.of r a o n)))))
-(assert (forall ((r Ref) (a (Array IDX BYTE)) (o IDX) (n IDX) (i IDX)) (! (=> (and (idx.le idx.zero i) (idx.lt i n) (byte.ok (select a (idx.add o i)))) (= (gs.at (gs.of r a o n) i) (select a (idx.add o i)))) :pattern ((gs.at (gs.of r a o n) i)))))
+(assert (forall ((r Ref) (a (Array IDX BYTE)) (o IDX) (n IDX) (i IDX)) (! (=> (and (idx.le idx.zero i) (idx.lt i n) (byte.ok (sl.get.byte a o i))) (= (gs.at (gs.of r a o n) i) (sl.get.byte a o i))) :pattern ((gs.at (gs.of r a o n) i)))))
 `
 	common = strings.NewReplacer("IDX", idx, "BYTE", byt).Replace(common)
 	// quantified axioms are included only when the symbol they define occurs in the script
@@ -564,6 +566,8 @@ func (st *SortTable) prelude(body string) string {
 				sym = "iface.typ"
 			case strings.Contains(line, "gs.of"):
 				sym = "gs.of"
+			case strings.Contains(line, "sl.get.byte"):
+				sym = "sl.get.byte"
 			case strings.Contains(line, "gs.sub"):
 				sym = "gs.sub"
 			case strings.Contains(line, "gs.cat"):
